@@ -1,11 +1,27 @@
 from __future__ import annotations
 
+import re
 from decimal import Decimal
 from typing import Protocol, Any
 
 from . import isoduration
 
 STRICT_VALUE_CHECK = True
+
+# lexical spaces of xsd:integer and xsd:decimal (python accepts more, e.g. '1_0' or '1e3')
+_XSD_INTEGER = re.compile(r'[+-]?[0-9]+')
+_XSD_DECIMAL = re.compile(r'[+-]?(?:[0-9]+(?:\.[0-9]*)?|\.[0-9]+)')
+
+
+def _xsd_integer_to_int(xml_value: str, unsigned: bool = False) -> int:
+    """Convert an xsd:integer lexical value, raise ValueError for any other string."""
+    stripped = xml_value.strip()
+    if _XSD_INTEGER.fullmatch(stripped) is None:
+        raise ValueError(f'invalid literal for xsd:integer: {xml_value!r}')
+    value = int(stripped)
+    if unsigned and value < 0:
+        raise ValueError(f'invalid literal for an unsigned xsd:integer type: {xml_value!r}')
+    return value
 
 
 class DataConverterProtocol(Protocol):
@@ -128,7 +144,7 @@ class TimestampConverter(NullConverter):
     def to_py(cls, xml_value: str) -> float | None:
         if xml_value is None:
             return None
-        return int(xml_value) / 1000
+        return _xsd_integer_to_int(xml_value, unsigned=True) / 1000
 
     @staticmethod
     def to_xml(py_value) -> str:
@@ -151,8 +167,10 @@ class DecimalConverter(NullConverter):
     def to_py(cls, xml_value: str) -> Decimal | int | float:
         if xml_value is None:
             return None
+        if _XSD_DECIMAL.fullmatch(xml_value.strip()) is None:
+            raise ValueError(f'invalid literal for xsd:decimal: {xml_value!r}')
         if cls.USE_DECIMAL_TYPE:
-            return Decimal(xml_value)
+            return Decimal(xml_value.strip())
         if '.' in xml_value:
             return float(xml_value)
         return int(xml_value)
@@ -210,7 +228,7 @@ class IntegerConverter(NullConverter):
     def to_py(xml_value: str) -> int:
         if xml_value is None:
             return None
-        return int(xml_value)
+        return _xsd_integer_to_int(xml_value)
 
     @staticmethod
     def to_xml(py_value: int) -> str:
@@ -226,6 +244,12 @@ class IntegerConverter(NullConverter):
 class UnsignedIntConverter(IntegerConverter):
     MAX = 1 << 32
 
+    @staticmethod
+    def to_py(xml_value: str) -> int:
+        if xml_value is None:
+            return None
+        return _xsd_integer_to_int(xml_value, unsigned=True)
+
     @classmethod
     def check_valid(cls, py_value):
         if STRICT_VALUE_CHECK and py_value is not None:
@@ -235,6 +259,12 @@ class UnsignedIntConverter(IntegerConverter):
 
 class UnsignedLongConverter(IntegerConverter):
     MAX = 1 << 64
+
+    @staticmethod
+    def to_py(xml_value: str) -> int:
+        if xml_value is None:
+            return None
+        return _xsd_integer_to_int(xml_value, unsigned=True)
 
 
 class BooleanConverter(NullConverter):
